@@ -217,6 +217,44 @@ func checkRelSetTyping(p *Prog, r *Report, f *ssa.Function) {
 			return
 		}
 		n++
+		if phi, isPhi := args[1].(*ssa.Phi); isPhi {
+			// one Set after the cardinality branches: each incoming value is
+			// judged under the outcome that holds on its edge
+			good, ne := true, 0
+			detail := ""
+			for k, e := range phi.Edges {
+				emi, ok := e.(*ssa.MakeInterface)
+				if !ok {
+					good = false
+					continue
+				}
+				ne++
+				pred := phi.Block().Preds[k]
+				facts := factsAt(pred)
+				if ifi, ok := pred.Instrs[len(pred.Instrs)-1].(*ssa.If); ok && pred.Succs[0] != pred.Succs[1] {
+					facts = append(facts, edgeFact{Cond: ifi.Cond, Truth: pred.Succs[0] == phi.Block(), From: pred})
+				}
+				one := 0
+				for _, ef := range expandFacts(facts) {
+					if _, fl, ok := fieldLoad(ef.Cond); ok && fl == "ToOne" {
+						if ef.Truth {
+							one = 1
+						} else {
+							one = -1
+						}
+					}
+				}
+				ts := fmtTypeString(emi.X.Type())
+				if !((one == 1 && ts == "string") || (one == -1 && ts == "[]string")) {
+					good = false
+					detail = ts
+				}
+			}
+			n += ne - 1
+			r.decide(good && ne >= 2, "C05.rel-typing", funcName(f)+":"+p.describe(c), p.pos(c.Pos()), "the merged value is a string on the to-one edge and a []string on the other",
+				"a relationship is set to a "+detail+" on the wrong cardinality branch (to-one must hold a string, to-many a []string)")
+			return
+		}
 		mi, ok := args[1].(*ssa.MakeInterface)
 		if !ok {
 			// the value may come from a decode helper h(data, rel.ToOne): then h
